@@ -173,9 +173,11 @@ impl SlotState {
 
         let (certs_created, mut votor_events, mut blocks_to_repair) = match vote {
             Vote::Notar(notar_vote) => {
-                let outputs = self.count_notar_stake(slot, notar_vote.block_hash(), voter_stake);
+                // store the vote first: certificates created while counting aggregate the
+                // stored votes, and the safe-to-skip check looks at our own stored vote
+                let block_hash = notar_vote.block_hash().clone();
                 self.votes.notar[v] = Some(notar_vote);
-                outputs
+                self.count_notar_stake(slot, &block_hash, voter_stake)
             }
             Vote::NotarFallback(nf_vote) => {
                 let outputs = self.count_notar_fallback_stake(nf_vote.block_hash(), voter_stake);
